@@ -3,7 +3,11 @@
 
 package wal
 
-import "github.com/youzan/ZanRedisDB/common"
+import (
+	"io"
+
+	"github.com/youzan/ZanRedisDB/common"
+)
 
 // Verification hook (build tag verif only; add-only, no call sites).
 //
@@ -24,4 +28,22 @@ func (verifQuietLogger) OutputWarning(maxdepth int, s string) error { return nil
 // (Fatalf/Panicf still exit/panic). Call it before any WAL is opened.
 func VerifQuietLog() {
 	plog = common.NewLevelLogger(common.LOG_ERR, verifQuietLogger{})
+}
+
+// VerifTailOffset is the logical end of the tail segment: the file offset of the tail plus
+// what the encoder still buffers. The crash-image check uses it to size an entry so that a
+// Save ends a chosen number of bytes before or after the segment boundary.
+func (w *WAL) VerifTailOffset() int64 {
+	w.mu.Lock()
+	defer w.mu.Unlock()
+	off, err := w.tail().Seek(0, io.SeekCurrent)
+	if err != nil {
+		return -1
+	}
+	if w.encoder != nil {
+		w.encoder.mu.Lock()
+		off += int64(w.encoder.bw.VerifBuffered())
+		w.encoder.mu.Unlock()
+	}
+	return off
 }
